@@ -4,6 +4,7 @@ import (
 	"encoding/json"
 	"fmt"
 	"io"
+	"sort"
 	"strings"
 
 	"github.com/jf-tech/omniparser/idr"
@@ -48,6 +49,46 @@ func (d *sdoc) kids(p int) []int {
 
 var richDocs = false // set by the replayer for the "rich values" rendering
 
+// nsMap: set by the replayer for the namespace renderings - the abstract names (elements a, b, c and the attribute k)
+// are rendered as qualified names; two abstract names may share the local name and differ only in the prefix.  The
+// specification's names are opaque, so a qualified name is just another name.  URIs: prefix p -> urn:p.
+var nsMap map[string]string
+
+func qn(name string) string {
+	if v, ok := nsMap[name]; ok {
+		return v
+	}
+	return name
+}
+
+// nsDecls: xmlns declarations for every prefix the current nsMap uses (put on the root element)
+func nsDecls() string {
+	seen := map[string]bool{}
+	var keys []string
+	for _, v := range nsMap {
+		if i := strings.Index(v, ":"); i > 0 && !seen[v[:i]] {
+			seen[v[:i]] = true
+			keys = append(keys, v[:i])
+		}
+	}
+	sort.Strings(keys)
+	out := ""
+	for _, k := range keys {
+		out += ` xmlns:` + k + `="urn:` + k + `"`
+	}
+	return out
+}
+
+// qnOf: the qualified name of a real node
+func qnOf(n *idr.Node) string {
+	if idr.IsXML(n) {
+		if p := idr.XMLSpecificOf(n).NamespacePrefix; p != "" {
+			return p + ":" + n.Data
+		}
+	}
+	return n.Data
+}
+
 func xmlEsc(s string) string {
 	return strings.NewReplacer("&", "&amp;", "<", "&lt;", `"`, "&quot;").Replace(s)
 }
@@ -57,9 +98,12 @@ func (d *sdoc) xml(i int, sb *strings.Builder) {
 		sb.WriteString(xmlEsc(valOf(d.Nm[i-1], richDocs)))
 		return
 	}
-	sb.WriteString("<" + d.Nm[i-1])
+	sb.WriteString("<" + qn(d.Nm[i-1]))
+	if d.Par[i-1] == 0 {
+		sb.WriteString(nsDecls())
+	}
 	if d.At[i-1] != "" {
-		sb.WriteString(` k="` + xmlEsc(valOf(d.At[i-1], richDocs)) + `"`)
+		sb.WriteString(` ` + qn("k") + `="` + xmlEsc(valOf(d.At[i-1], richDocs)) + `"`)
 	}
 	ks := d.kids(i)
 	if len(ks) == 0 {
@@ -70,7 +114,7 @@ func (d *sdoc) xml(i int, sb *strings.Builder) {
 	for _, k := range ks {
 		d.xml(k, sb)
 	}
-	sb.WriteString("</" + d.Nm[i-1] + ">")
+	sb.WriteString("</" + qn(d.Nm[i-1]) + ">")
 }
 
 func (d *sdoc) renderXML() string {
@@ -89,9 +133,9 @@ func (d *sdoc) enc(i, depth int, out *[]string) {
 	}
 	a := ""
 	if d.At[i-1] != "" {
-		a = " @k=" + valOf(d.At[i-1], richDocs)
+		a = " @" + qn("k") + "=" + valOf(d.At[i-1], richDocs)
 	}
-	*out = append(*out, fmt.Sprintf("%d E %s%s", depth, d.Nm[i-1], a))
+	*out = append(*out, fmt.Sprintf("%d E %s%s", depth, qn(d.Nm[i-1]), a))
 	for _, k := range d.kids(i) {
 		d.enc(k, depth+1, out)
 	}
@@ -104,11 +148,11 @@ func encNode(n *idr.Node, depth int, out *[]string) {
 	case idr.ElementNode:
 		a := ""
 		for c := n.FirstChild; c != nil; c = c.NextSibling {
-			if c.Type == idr.AttributeNode {
-				a += " @" + c.Data + "=" + c.InnerText()
+			if c.Type == idr.AttributeNode && !strings.HasPrefix(qnOf(c), "xmlns:") { // namespace declarations are not data
+				a += " @" + qnOf(c) + "=" + c.InnerText()
 			}
 		}
-		*out = append(*out, fmt.Sprintf("%d E %s%s", depth, n.Data, a))
+		*out = append(*out, fmt.Sprintf("%d E %s%s", depth, qnOf(n), a))
 		for c := n.FirstChild; c != nil; c = c.NextSibling {
 			if c.Type != idr.AttributeNode {
 				encNode(c, depth+1, out)
@@ -188,20 +232,20 @@ func (x *sxpath) renderV(rich bool) string {
 	var sb strings.Builder
 	for _, s := range x.Steps {
 		if s.Axis == "child" {
-			sb.WriteString("/" + s.Test)
+			sb.WriteString("/" + qn(s.Test))
 		} else {
-			sb.WriteString("//" + s.Test)
+			sb.WriteString("//" + qn(s.Test))
 		}
 	}
 	switch x.Pk {
 	case "child=":
-		sb.WriteString("[" + x.Pn + "=" + xpathLit(valOf(x.Pv, rich)) + "]")
+		sb.WriteString("[" + qn(x.Pn) + "=" + xpathLit(valOf(x.Pv, rich)) + "]")
 	case "self=":
 		sb.WriteString("[.=" + xpathLit(valOf(x.Pv, rich)) + "]")
 	case "attr=":
-		sb.WriteString("[@k=" + xpathLit(valOf(x.Pv, rich)) + "]")
+		sb.WriteString("[@" + qn("k") + "=" + xpathLit(valOf(x.Pv, rich)) + "]")
 	case "child":
-		sb.WriteString("[" + x.Pn + "]")
+		sb.WriteString("[" + qn(x.Pn) + "]")
 	}
 	return sb.String()
 }
@@ -276,8 +320,10 @@ func c04Replay(args []string) int {
 		if e := json.Unmarshal(line, &c); e != nil {
 			return e
 		}
-		for _, rich := range []bool{false, true} {
+		for vi, rich := range []bool{false, true, false, false} {
 			richDocs = rich
+			// renderings 3 and 4: qualified names - b shares a's local name under another prefix; everything prefixed
+			nsMap = []map[string]string{nil, nil, {"b": "p:a"}, {"a": "p:a", "b": "q:a", "k": "q:k"}}[vi]
 			xmlText, xp := c.D.renderXML(), c.X.renderV(rich)
 			var exp, expSel [][]string
 			for _, i := range c.Out {
@@ -300,7 +346,7 @@ func c04Replay(args []string) int {
 				continue
 			}
 			texts := map[string]string{"xml": xmlText}
-			if c.D.jsonOK(0) {
+			if c.D.jsonOK(0) && nsMap == nil { // JSON has no namespaces
 				texts["json"] = c.D.renderJSON()
 			}
 			for _, format := range []string{"xml", "json"} {
@@ -339,7 +385,7 @@ func c04Replay(args []string) int {
 			}
 			sum.sample(M{"xml": xmlText, "xpath": xp, "expected": exp})
 		}
-		richDocs = false
+		richDocs, nsMap = false, nil
 		return nil
 	})
 	if err != nil {
